@@ -846,7 +846,7 @@ def run(chk):
         "packing adds the bit only for sizes strictly greater than the block size, in gensquashfs and tar2sqfs); "
         "K11-order (post-process, then sort, then pack; packing walks the sorted list); K14-sort (priorities compared at "
         "full width, strictly; comparator-shaped helpers evaluated exhaustively incl. truncated differences); K13-export "
-        "(export table entry count only grows, slot index from the inode number, written when requested) K13-fragflags: the flags of a fragment block are built from constants and the fragment bit only, never from a file's flags; K14-sortkey: the whole file list is handed to the sort, no part of it is split off by whether a line matched.")
+        "(export table entry count only grows, slot index from the inode number, written when requested). K13-fragflags: the flags of a fragment block are built from constants and the fragment bit only, never from a file's flags; K14-sortkey: the whole file list is handed to the sort, no part of it is split off by whether a line matched.")
     chk.assumptions = ["stability of an arbitrary sort algorithm is decided only for the selection-sort shape (strict comparison)"]
     E = enum_values()
     prog = load_program("gensquashfs")
